@@ -110,6 +110,13 @@ func caseC14(c *Ctx) {
 		fo.maxRoots = 1
 	}
 	forest := genForest(c, fo)
+	big := c.Chance(1, 24)
+	if big {
+		// one root whose rows add up to well over 32 KiB (more than any buffer between the tree
+		// and the writer): faults are drawn, not enumerated, for these
+		forest = []*MNode{genBigRoot(c, alpha)}
+		c.st.Count("big-root")
+	}
 	sp := genSpelling(c, false)
 	doc, parts := spell(c, forest, sp)
 	c.Scenario["op"] = op.String()
@@ -220,7 +227,11 @@ func caseC14(c *Ctx) {
 				fail("C14:reader-error-replaced:"+mode+":"+cls, "%s: the reader failed after byte %d of %d (%q|%q); the call returned %q, which is not the reader's error", opk, f.k, L, tail(doc[:f.k], 12), head(doc[f.k:], 12), out.Err)
 			}
 		}
-		if out.WriterFired && out.Err == nil {
+		if out.WriterFired && out.Err == nil && f.kind == "writer-short" && string(out.Out) == string(base.Out) && !malformed {
+			// the short write reported no error and the caller (bufio on a write larger than its
+			// buffer) offered the remaining bytes again: every byte was accepted, nil is right
+			c.st.Count("short-write-completed-by-retry")
+		} else if out.WriterFired && out.Err == nil {
 			what := "writer-error-swallowed"
 			if f.kind == "writer-full" {
 				what = "writer-error-with-full-count-swallowed"
@@ -245,6 +256,19 @@ func caseC14(c *Ctx) {
 		if kv, ok := c.Param("kind"); ok {
 			k, _ := c.Param("k")
 			faults = []c14fault{{c14kinds[kv%len(c14kinds)], k}}
+		} else if big {
+			// drawn fault indices (the enumeration would cost L+W runs of a big document)
+			h := hashStr(string(doc) + op.String())
+			for i := uint64(0); i < 24; i++ {
+				if W > 0 {
+					kind := []string{"writer", "writer-torn", "writer-short", "writer-once", "writer-once", "writer-full"}[mix(h, 3*i)%6]
+					faults = append(faults, c14fault{kind, int(mix(h, 3*i+1) % uint64(W))})
+				}
+				if !op.FromRoot && i%3 == 0 {
+					kind := []string{"reader", "reader+data", "reader-once", "reader+data-once"}[mix(h, 3*i+2)%4]
+					faults = append(faults, c14fault{kind, int(mix(h, 3*i+1) % uint64(L+1))})
+				}
+			}
 		} else {
 			if !op.FromRoot {
 				for k := 0; k <= L; k++ {
@@ -261,8 +285,12 @@ func caseC14(c *Ctx) {
 				}
 			}
 		}
-		c.st.Add("enumerated.reader-offsets", L+1)
-		c.st.Add("enumerated.write-indices", W)
+		if big {
+			c.st.Add("big-root.drawn-faults", len(faults))
+		} else {
+			c.st.Add("enumerated.reader-offsets", L+1)
+			c.st.Add("enumerated.write-indices", W)
+		}
 		for _, f := range faults {
 			mkEnvSalt = hashStr(f.kind) + uint64(f.k)
 			discardFor = f.kind
@@ -313,16 +341,31 @@ func caseC14(c *Ctx) {
 		discardFor = f0.kind
 		env0 := mkEnv()
 		f0.apply(env0)
-		env0.MaxSteps = 40000
+		env0.MaxSteps = 40000 + 4*len(doc)
 		c.Sim("earlier", op, env0)
 	}
 	discardFor = f.kind
 	env := mkEnv()
 	f.apply(env)
-	env.MaxSteps = 40000
+	env.MaxSteps = 40000 + 4*len(doc)
 	out := c.Sim("main", op, env)
 	judge(f, out, out.TraceHash)
 	c.st.Sample("massive/"+f.kind, map[string]any{"mode": "massive", "op": op.String(), "doc": string(doc), "fault": c.Scenario["fault"], "result": errStr(out.Err), "steps": out.Steps})
+}
+
+// genBigRoot: a two-level root with long names whose text output is 40-120 KiB.
+func genBigRoot(c *Ctx, alpha int) *MNode {
+	root := &MNode{Name: genName(c, alpha)}
+	pad := strings.Repeat("x", 20+c.Draw(30))
+	n, m := 20+c.Draw(20), 20+c.Draw(20)
+	for i := 0; i < n; i++ {
+		k := &MNode{Name: fmt.Sprintf("%s%s%d", genName(c, alpha), pad, i)}
+		for j := 0; j < m; j++ {
+			k.Kids = append(k.Kids, &MNode{Name: fmt.Sprintf("%s%d_%d", pad, i, j)})
+		}
+		root.Kids = append(root.Kids, k)
+	}
+	return root
 }
 
 func opSig(op Op) string {
